@@ -494,6 +494,10 @@ pub fn on_would_block() {
 
 /// Runs up to `batch` executions of one job on the calling thread.
 fn drive(shared: &Arc<Shared>, state: &Arc<Mutex<JobState>>, log_fn: fn() -> Vec<String>, batch: usize) {
+    if std::env::var("VERIF_E3_LOG_STARTS").is_ok() {
+        // (for runs in a child process that may die of an abort: lets the parent name the job that was running)
+        eprintln!("START {} {}", std::thread::current().name().unwrap_or("?"), state.lock().unwrap().job.name);
+    }
     for _ in 0..batch {
         let (p, scenario, selfcheck) = {
             let mut st = state.lock().unwrap();
@@ -644,8 +648,12 @@ pub fn run_jobs(
     let spawn = || {
         shared.active.fetch_add(1, Ordering::SeqCst);
         let sh = shared.clone();
+        // VERIF_E3_STACK_KB: stack of the worker threads (C03 runs its socket-level part on the 2 MiB of a tokio worker)
+        let stack = std::env::var("VERIF_E3_STACK_KB").ok().and_then(|s| s.parse::<usize>().ok()).map(|k| k << 10).unwrap_or(8 << 20);
+        static WORKER_NO: AtomicUsize = AtomicUsize::new(0);
         std::thread::Builder::new()
-            .stack_size(8 << 20)
+            .name(format!("zv-w{}", WORKER_NO.fetch_add(1, Ordering::Relaxed)))
+            .stack_size(stack)
             .spawn(move || worker(sh, log_fn))
             .expect("spawn worker");
     };
